@@ -28,6 +28,10 @@ def rhs_universe(U, sel):
     return {"dims": dims}
 
 
+class _NdSub(np.ndarray):
+    """a trivial user subclass of ndarray (as memmap, matrix or unit-carrying arrays are)"""
+
+
 def run_history(desc):
     U = desc["universe"]
     td = desc["target"]
@@ -109,6 +113,23 @@ def run_history(desc):
                 return float(-(code * 7 + si))
 
             value = build.ndarray_from_fn(rl, ritems, rv, float)
+            base_buf = value
+            fl = rhs.get("flavour")
+            if fl and value.ndim >= 1:
+                # the assigned ndarray need not be a plain, writeable, C-ordered array of its own
+                if fl == "readonly":
+                    value = base_buf.view()
+                    value.setflags(write=False)  # e.g. what np.broadcast_to or a protected view hands out
+                elif fl == "subclass":
+                    value = base_buf.view(_NdSub)
+                elif fl == "fortran":
+                    value = base_buf = np.asfortranarray(base_buf)
+                elif fl == "strided":
+                    big = np.zeros(tuple(2 * n for n in base_buf.shape))
+                    v_ = big[tuple(slice(0, None, 2) for _ in base_buf.shape)]
+                    v_[...] = base_buf
+                    value = base_buf = v_
+                classes.append(f"ndarray-rhs:{fl}")
             newval = rv
         else:  # whole-array ndarray of a wrong shape
             shape = list(target.values.shape)
@@ -151,7 +172,9 @@ def run_history(desc):
                 twins.append((tw, build.snapshot(tw), si))
                 classes.append("twin-target")
         if kind == "ndarray":
-            value[...] = 99999.0  # later changes of the assigned ndarray must not reach the target
+            base_buf[...] = 99999.0  # later changes of the assigned ndarray('s memory) must not reach the target
+            require(bool(target.values.flags.writeable), "target-values-not-writeable-after-assignment", f"step {si}: rhs flavour {rhs.get('flavour')}")
+            require(not np.shares_memory(target.values, base_buf), "assigned-ndarray-not-copied", f"step {si}: target shares memory with the assigned ndarray (flavour {rhs.get('flavour')})")
         require(list(target.dims.letters) == tletters, "assignment-changed-dims", f"step {si}: {target.dims.letters}")
         require(tuple(target.values.shape) == tuple(target.dims.shape), "assignment-changed-shape", f"step {si}: {target.values.shape} vs {target.dims.shape}")
 
@@ -201,6 +224,8 @@ def histories(draw, mode, max_steps=5, max_dims=4, max_len=3):
             syntax = draw(st.sampled_from(["dict_letter", "dict_name", "dict_mixed"] + (["ellipsis"] if not sel else []) + (["tuple", "tuple_mixed", "tuple_mixed"] if tuple_ok else []) + (["bare", "bare"] if len(sel) == 1 and all(v["kind"] == "single" for v in sel.values()) else [])))
         rl, ritems, orig = region(U, tl, sel)
         rhs = {"kind": kind}
+        if kind == "ndarray":
+            rhs["flavour"] = draw(st.sampled_from([None, None, "readonly", "subclass", "fortran", "strided"]))
         if kind == "array_other_len":
             # source over the target's letters, one dimension replaced by a same-letter dimension with
             # another number of items: whatever happens, dims and shape of the target must not change
